@@ -39,8 +39,11 @@ fn usage() -> ! {
 fn main() {
     let args: Vec<String> = std::env::args().collect();
     install_quiet_panic_hook();
-    if let Err(e) = sha256::self_check() {
-        machinery_error(e);
+    // (child modes skip the self-check: the parent has run it, and tens of thousands of children are started)
+    if !matches!(args.get(1).map(|s| s.as_str()), Some("c14-history")) {
+        if let Err(e) = sha256::self_check() {
+            machinery_error(e);
+        }
     }
     match args.get(1).map(|s| s.as_str()) {
         Some("check") => {
@@ -80,6 +83,7 @@ fn main() {
         }
         Some("c07-probe") => c07::child_probe(args.get(2).and_then(|s| s.parse().ok()).unwrap_or(usize::MAX)),
         Some("c07-one") => c07::child_one(args.get(2).map(|s| s.as_str()).unwrap_or("")),
+        Some("c14-history") => c14::child_history(&args[2..]),
         Some("scope-size") => {
             // tooling: kiki-mc scope-size n t p k [sym]
             let v: Vec<usize> = args[2..6].iter().map(|s| s.parse().unwrap()).collect();
@@ -92,7 +96,7 @@ fn main() {
             println!("{} raw={} enumerated={}", sc.name(), scopes::scope_size(&sc), n);
         }
         Some("free-run") => {
-            println!("{}", c14::free_run_digest());
+            print!("{}", c14::free_run_report(args.get(2).and_then(|s| s.parse().ok()).unwrap_or(0)));
         }
         Some("replay") => {
             let path = args.get(2).cloned().unwrap_or_else(|| usage());
